@@ -25,11 +25,13 @@ pub struct GenOpts {
     pub no_shdrs: bool,
     /// ragged section sizes (trailing partial entries in entry tables)
     pub ragged: bool,
+    /// shuffle the order of the sections in the table (links are remapped)
+    pub shuffle_sections: bool,
 }
 
 impl GenOpts {
     pub fn standard() -> GenOpts {
-        GenOpts { weird_views: true, compressed: true, name_games: false, early_tables: false, max_syms: 24, density: 5, no_shdrs: false, ragged: true }
+        GenOpts { weird_views: true, compressed: true, name_games: false, early_tables: false, max_syms: 24, density: 5, no_shdrs: false, ragged: true, shuffle_sections: true }
     }
 }
 
@@ -322,6 +324,10 @@ pub fn gen_object(rng: &mut Rng, enc: Enc, o: &GenOpts) -> (ObjSpec, ObjModel) {
         }
     }
 
+    if o.shuffle_sections && rng.chance(2, 3) {
+        permute_sections(&mut spec, &mut m, rng);
+    }
+
     // segments
     if spec.has_phdrs {
         if !spec.secs.is_empty() && rng.chance(3, 4) {
@@ -356,4 +362,62 @@ pub fn gen_object(rng: &mut Rng, enc: Enc, o: &GenOpts) -> (ObjSpec, ObjModel) {
         }
     }
     (spec, m)
+}
+
+/// Reorder the sections of the table at random; every section index held anywhere (sh_link,
+/// view placements, the model) is remapped, so the object stays well-formed.
+pub fn permute_sections(spec: &mut ObjSpec, m: &mut ObjModel, rng: &mut Rng) {
+    let n = spec.secs.len();
+    if n < 2 {
+        return;
+    }
+    let mut order: Vec<usize> = (0..n).collect(); // order[new_pos] = old_pos (0-based over spec.secs)
+    rng.shuffle(&mut order);
+    let mut map = vec![0usize; n + 1]; // final index (1-based) old -> new
+    for (new_pos, old_pos) in order.iter().enumerate() {
+        map[old_pos + 1] = new_pos + 1;
+    }
+    let remap = |i: usize| if i >= 1 && i <= n { map[i] } else { i };
+    let old = std::mem::take(&mut spec.secs);
+    let mut slots: Vec<Option<Sec>> = old.into_iter().map(Some).collect();
+    for old_pos in order {
+        let mut s = slots[old_pos].take().unwrap();
+        s.link = remap(s.link as usize) as u32;
+        s.place = match s.place {
+            Place::ShareStart(j, z) => Place::ShareStart(remap(j), z),
+            Place::ShareEnd(j, z) => Place::ShareEnd(remap(j), z),
+            p => p,
+        };
+        spec.secs.push(s);
+    }
+    for g in spec.segs.iter_mut() {
+        g.range = match &g.range {
+            SegRange::OfSection(i) => SegRange::OfSection(remap(*i)),
+            SegRange::Span(a, b) => SegRange::Span(remap(*a), remap(*b)),
+            r => r.clone(),
+        };
+    }
+    if let Some((i, _)) = m.symtab.as_mut() {
+        *i = remap(*i);
+    }
+    if let Some((i, _)) = m.dynsym.as_mut() {
+        *i = remap(*i);
+    }
+    if let Some(i) = m.sysv_hash.as_mut() {
+        *i = remap(*i);
+    }
+    if let Some((i, _)) = m.gnu_hash.as_mut() {
+        *i = remap(*i);
+    }
+    if let Some((i, _)) = m.dynamic.as_mut() {
+        *i = remap(*i);
+    }
+    for ns in m.notes.iter_mut() {
+        ns.sec = remap(ns.sec);
+    }
+    for v in [&mut m.rels, &mut m.relas, &mut m.compressed, &mut m.nobits, &mut m.views] {
+        for i in v.iter_mut() {
+            *i = remap(*i);
+        }
+    }
 }
